@@ -10,6 +10,7 @@ open RV.C15
 #print axioms model_rewrite_invariant
 #print axioms rename_equivariant
 #print axioms prefix_irrelevant
+#print axioms string_query_stateless
 #print axioms initbindings_values
 #print axioms bgp_seed_is_join
 #print axioms initbindings_values_needs_no_subquery_reuse
